@@ -10,7 +10,7 @@ RULE = ("build cases: an annotated sequence handed to the real gff.Build, then g
         "newline positions inside the sequence; the harness holds Build's output across a Build of another record before using it; "
         "layout cases: the same content written by the independent Lean writer (arbitrary line widths incl. blank lines; blank, # comment, "
         "## directive and ### lines before any feature, after the features and inside the FASTA section; final newline or not; one "
-        "single-line FASTA longer than 64 KiB; and the three finding classes trailing ';', CR LF, directive before ##sequence-region) "
+        "single-line FASTA longer than 64 KiB; trailing ';' in column 9, CR LF line ends, directives before ##sequence-region) "
         "parsed by the real gff.Parse / gff.Read. "
         "non-trivial = at least one feature or sequence length >= 70; distinct by case text")
 EXHAUSTIVE = {"quick": False, "thorough": False}
@@ -26,18 +26,20 @@ ASSUMPTIONS = [
     "NARROWING: Meta.GffVersion free of blank and newline is a hypothesis of parse_build only; the judge still judges records whose "
     "version holds a blank (the version is not a judged field)",
     "NARROWING: the region name (Meta.Name, or the fallback Build writes for an empty name) is free of blanks — it is a seqid",
-    "NARROWING: every feature has at least one attribute (the quantifier says 1..6); Parse(Build x) panics on an empty ninth column",
-    "the independent writer puts ##sequence-region on the line after ##gff-version unless Layout.preRegion says otherwise",
+    "NARROWING of 'free of tab, newline': newline is read as LF or CR. Since fix 4e5b18b gff.Parse drops a CR at the end of every line, so "
+    "text ending in CR would not come back; theorems and judge require columns, attribute text, version, names, skip lines and "
+    "sequence letters to be CR-free",
+    "features WITHOUT attributes (outside the quantifier's 1..6) are in the theorems' and the judge's domain since fix 244ec83: the "
+    "empty ninth column reads back as an empty map",
+    "a directive placed before ##sequence-region by the independent writer does not itself begin with '##sequence-region'",
 ]
 PARTIAL = [
     "'preserves region name and bounds, seqid, source, type' is proved and judged for values that are SET; an empty Meta.Name / "
     "RegionStart 0 / RegionEnd 0 / empty seqid, source, type come back as the defaults gff.Build wrote (Locus.Name or Accession or "
     "'unknown'; 1; digits of Locus.SequenceLength or 1; Locus.Name; 'feature'; 'unknown') — parse_build states the exact result "
     "(expected x), parse_build_preserves the clause under allSet",
-    "parse_layout_partial / coords_layout: proved for plainLayout (##sequence-region on line 2, no ';' at the end of column 9, LF line "
-    "ends). For the three other writer choices the real gff.Parse panics: known findings C14-trailing-semicolon, C14-crlf, "
-    "C14-directive-before-region with kernel-checked witnesses trailing_semicolon_witness, crlf_witness, directive_before_region_witness",
-    "a ninth column written as '.' (no attributes) is outside the quantifier (1..6 attributes) and not generated by the writer",
+    "a ninth column written as '.' (the GFF3 way to say 'no attributes') is outside the quantifier (1..6 attributes), not written by "
+    "the independent writer and not covered: gff.Parse panics on it",
 ]
 
 TEXT = "abcdefghijklmnopqrstuvwxyzABCDEFGHIJKLMNOPQRSTUVWXYZ0123456789 .,:()[]_-+*/%#>|'\"~!?"
@@ -59,7 +61,7 @@ def ident(r, lo=1, hi=10):
 
 
 def attrs(r, n=None):
-    n = r.randint(1, 6) if n is None else n
+    n = (r.randint(1, 6) if r.random() < 0.97 else 0) if n is None else n   # 0: outside 1..6 but readable since fix 244ec83
     keys = []
     while len(keys) < n:
         k = r.choice(["ID", "Name", "Parent", "Note", "Dbxref", "gene", "product", "locus_tag"]) if r.random() < 0.5 else text(r, 0, 8)
@@ -150,7 +152,9 @@ def groups(c, gs):
 
 
 def layout_case(r, n, nfeat=None, finding=None, plain_skips=False):
-    """finding: None | 'semi' | 'crlf' | 'pre' — the three writer choices on which gff.Parse fails (known findings)"""
+    """finding: None | 'semi' | 'crlf' | 'pre' | 'all' — writer choices on which gff.Parse failed before fixes 244ec83, 4e5b18b, aac6dbd"""
+    if finding is None and not plain_skips:
+        finding = r.choice([None, None, None, "semi", "crlf", "pre", "all"])
     seq = randword(r, r.choice(SEQA), n)
     region = ident(r)
     nfeat = r.randint(0, 30) if nfeat is None else nfeat
@@ -171,11 +175,12 @@ def layout_case(r, n, nfeat=None, finding=None, plain_skips=False):
     groups(c, [skip_group(r, 0.1) for _ in range(r.choice([0, 0, 0, 3, 8]))])
     c.append(widths_text(r, n))
     c.append(r.choice(["true", "true", "false"]))
-    pre = [r.choice(["##species x", "##feature-ontology so.obo", "##genome-build NCBI B36 more words here"])] if finding == "pre" else []
+    pre = [r.choice(["##species x", "##feature-ontology so.obo", "##genome-build NCBI B36 more words here", "#!processor poly", ""])
+           for _ in range(r.randint(1, 3))] if finding in ("pre", "all") else []
     c.append(str(len(pre)))
     c += pre
-    c.append("true" if finding == "semi" else "false")
-    c.append("true" if finding == "crlf" else "false")
+    c.append("true" if finding in ("semi", "all") else "false")
+    c.append("true" if finding in ("crlf", "all") else "false")
     return c
 
 
@@ -238,7 +243,7 @@ def cases(seed, tier):
         yield layout_case(r, n, nfeat=r.randint(0, 2))
     for _ in range(nlay):
         yield layout_case(r, loglen(r, 1, 5000))
-    # the three recorded findings: writer choices on which gff.Parse fails
+    # the three former findings (fixed by 244ec83, 4e5b18b, aac6dbd), each alone on small documents
     for fnd in ["semi", "crlf", "pre"]:
         for _ in range(3):
             yield layout_case(r, r.randint(1, 200), nfeat=r.randint(1, 3), finding=fnd)
@@ -270,9 +275,9 @@ LEVEL_TEXT = ("parse_build: for every record satisfying the decidable predicate 
               "Build's text exactly through the definition line and up to newline positions inside the sequence. coords_build / "
               "coords_layout: GetSequence of a parsed feature is `bases seq first last` (1-based inclusive enumeration). "
               "Both coordinate theorems are stated on the features of the parse result (Forall2 against the input features). "
-              "parse_layout_partial: the parse of any text produced by the independent writer with a plain layout (arbitrary widths; blank, "
-              "comment, directive, ### lines anywhere between features and inside the FASTA section; with or without the final newline) is "
-              "what the document denotes.")
+              "parse_layout (full strength): the parse of any text produced by the independent writer (arbitrary widths; blank, comment, "
+              "directive, ### lines anywhere between features and inside the FASTA section; directives before ##sequence-region; column 9 "
+              "with or without a final ';'; LF or CR LF; with or without the final line end) is what the document denotes.")
 LEVEL_NOTE = ("Trusted: Lean kernel; the hand-written model's faithfulness is sampled by the correspondence check: Build's text byte for "
               "byte on the buildx cases (every length 1..150/430 x RegionEnd variants — this ties the 70-column rule and the RegionEnd "
               "exception, `buildBreak`, to the code) and, on the random build cases, exactly through the FASTA definition line and up to "
